@@ -14,6 +14,6 @@ Print Assumptions C15_field_history_independent_all.
 
 Theorem C15_fresh_eq_reused_all : forall (w : world) (pre : list (call w)) (st : state w) p od dflt,
   last (run w C15_facts st (pre ++ [Field w p od])) dflt =
-  pure w (match od with Some x => x | None => date_after w (sdate w st) pre end) p (sframe w st).
+  pure w (match od with Some x => x | None => date_after w (sdate w st) pre end) p (frame_after w (sframe w st) pre).
 Proof. intros w. exact (fresh_eq_reused_conditional w eq_refl). Qed.
 Print Assumptions C15_fresh_eq_reused_all.
